@@ -77,6 +77,20 @@ func (m *memFS) find(op, name string) (*Node, error) {
 	return cur, nil
 }
 
+// lsize is what a directory entry of a symlink reports as size: the length of the link text, not the size
+// Stat() (which follows the link) reports.
+const lsize = 2
+
+// dinfo is the FileInfo behind a DirEntry handed out by ReadDir (lstat-like).
+type dinfo struct{ info }
+
+func (i dinfo) Size() int64 {
+	if i.n.Kind == "sym" {
+		return lsize
+	}
+	return i.n.Size
+}
+
 type info struct{ n *Node }
 
 func (i info) Name() string { return i.n.Name }
@@ -140,7 +154,7 @@ func (m *memFS) ReadDir(name string) ([]fs.DirEntry, error) {
 	}
 	var out []fs.DirEntry
 	for _, c := range n.Children {
-		out = append(out, fs.FileInfoToDirEntry(info{c}))
+		out = append(out, fs.FileInfoToDirEntry(dinfo{info{c}}))
 	}
 	return out, nil
 }
@@ -194,7 +208,7 @@ func (d *dirFile) ReadDir(k int) ([]fs.DirEntry, error) {
 	if k <= 0 {
 		var out []fs.DirEntry
 		for ; d.pos < len(d.n.Children); d.pos++ {
-			out = append(out, fs.FileInfoToDirEntry(info{d.n.Children[d.pos]}))
+			out = append(out, fs.FileInfoToDirEntry(dinfo{info{d.n.Children[d.pos]}}))
 		}
 		return out, nil
 	}
@@ -203,7 +217,7 @@ func (d *dirFile) ReadDir(k int) ([]fs.DirEntry, error) {
 	}
 	var out []fs.DirEntry
 	for ; d.pos < len(d.n.Children) && len(out) < k; d.pos++ {
-		out = append(out, fs.FileInfoToDirEntry(info{d.n.Children[d.pos]}))
+		out = append(out, fs.FileInfoToDirEntry(dinfo{info{d.n.Children[d.pos]}}))
 	}
 	return out, nil
 }
